@@ -487,6 +487,13 @@ CHECKS["C15"]["rule"] += (" Plus two parsers side by side: A is given a caller s
                           "dropped, the caller overwrites its slice; B, fed in between (sizes up to 100 kB), must still show "
                           "exactly the bytes it was fed.")
 
+CHECKS["C15"]["quick"]["tests"].append({"test": "TestC15Volume", "checks": 6, "subchecks": 1})
+CHECKS["C15"]["thorough"]["tests"].append({"test": "TestC15Volume", "checks": 8, "subchecks": 1, "once": True,
+                                           "env": {"VERIF_VOLUME_PARSERS": "1"}})
+CHECKS["C15"]["rule"] += (" Plus volume: one ParserBuffer (thorough: also HP, BHP, DHP, BDHP, BUP instances) is fed more than 2^32 bytes "
+                          "of a periodic stream in chunks, consumed (Parse(nil); real Parse calls within 2-8 MiB of 2^31 and 2^32, "
+                          "expanded by a reference decoder that keeps 1 MiB of history) and shrunk thousands of times; ReadAt/ByteAt "
+                          "are probed at the ends and the middle of the buffer and at offsets 2^31/2^32 away all the way.")
 CHECKS["C17"]["quick"]["tests"].append({"test": "TestC17HugeArray", "checks": 200, "subchecks": 1})
 CHECKS["C17"]["thorough"]["tests"].append({"test": "TestC17HugeArray", "checks": 1000, "subchecks": 1})
 CHECKS["C17"]["rule"] += (" Plus caller-supplied arrays: 1/8 of the DecoderBuffer histories start from a Data slice with a "
